@@ -212,6 +212,9 @@ def run(ctx):
     progs += F.c01_f2("quick", rnd)[:60 if quick else 400]
     # recovery paths: the fallback of a tal: element must not emit its tag either
     progs += [p for p in F.c13_chains("quick", rnd) if "ns" in p["fam"]][:25 if quick else 200]
+    # statement values that contain character entities (1 &lt; 2, 1 &amp; 3) mean the same under every spelling
+    ent = [p for p in F.c12_raising("quick", rnd) if p["fam"].endswith(":entities")]
+    progs += rnd.sample(ent, min(len(ent), 12 if quick else 200))
     agg = run_family("C18plans", progs, ["x", "y", "error"], dev=dev, invariants=["WellBracketed"],
                      perms=(0, 100, 101, 200, 300, 301), timeout=3000)
     ctx.add_family(agg)
